@@ -718,6 +718,7 @@ func (dec *Decoder) defaultDecode(t reflect.Type, p interface{}, tag byte) {
 		dec.decodeError(t, tag)
 	}
 }
+
 // readErrorMessage reads the text that follows the error tag. It is a string in one of its
 // forms; anything else (another error tag, say: a chain of them was followed by one level of
 // recursion per byte) is not a message.
